@@ -288,6 +288,23 @@ func (d *descer) allocLoad(a *ssa.Alloc, v ssa.Value, depth int) *Expr {
 	}
 	d.seen[a] = true
 	defer delete(d.seen, a)
+	// block-local reaching definition (covers go/ssa's defer-spilled results:
+	// "*r = v; rundefers; t = *r; return t"): exact when no closure captures the cell
+	if ld, ok := v.(*ssa.UnOp); ok && ld.Block() != nil && !capturedByClosure(a) {
+		blk := ld.Block()
+		at := -1
+		for i, in := range blk.Instrs {
+			if in == ssa.Instruction(ld) {
+				at = i
+				break
+			}
+		}
+		for i := at - 1; i >= 0; i-- {
+			if st, ok := blk.Instrs[i].(*ssa.Store); ok && st.Addr == ssa.Value(a) {
+				return d.desc(st.Val, depth+1)
+			}
+		}
+	}
 	stores := cellStores(a)
 	if stores == nil {
 		// address escapes in a way we do not follow
@@ -733,4 +750,16 @@ func exprValues(e *Expr, into map[ssa.Value]bool) {
 	for _, a := range e.Args {
 		exprValues(a, into)
 	}
+}
+
+func capturedByClosure(a *ssa.Alloc) bool {
+	if a.Referrers() == nil {
+		return false
+	}
+	for _, r := range *a.Referrers() {
+		if _, ok := r.(*ssa.MakeClosure); ok {
+			return true
+		}
+	}
+	return false
 }
